@@ -38,7 +38,7 @@ ASSUMPTIONS = [
 def state_case(draw):
     kind = draw(st.sampled_from(['entangled', 'entangled', 'blocks', 'blocks_large']))
     c = {'kind': kind, 'cplx': draw(st.sampled_from([True, True, False])), 'seed': draw(gen.SEED), 'useed': draw(gen.SEED),
-         'samples': draw(st.sampled_from([1, 2, 5, 20, 60, 200]))}
+         'samples': draw(st.sampled_from([1, 2, 5, 20, 60, 200])), 'gate_in_place': draw(st.sampled_from([False, True]))}
     if kind == 'entangled':
         n = draw(st.integers(1, 7))
         c['blocks'] = [n]
@@ -121,18 +121,22 @@ def body(c):
     N = c['samples']
     U = np.random.default_rng(c['useed']).uniform(0, 1, (N, k))
     # prediction, block by block (blocks are independent: rank-1 bonds between them)
-    pred = np.zeros((N, k), dtype=int)
-    col = 0
-    off = 0
-    mind = np.inf
-    for q, v in zip(blocks, dense_blocks):
-        loc = [s - off for s in measure if off <= s < off + q]
-        if loc:
-            bits, md = predict_bits(v, q, loc, U[:, col:col + len(loc)])
-            pred[:, col:col + len(loc)] = bits
-            col += len(loc)
-            mind = min(mind, md)
-        off += q
+    def predict(dblocks):
+        pred_ = np.zeros((N, k), dtype=int)
+        col = 0
+        off = 0
+        mind_ = np.inf
+        for q, v in zip(blocks, dblocks):
+            loc = [s - off for s in measure if off <= s < off + q]
+            if loc:
+                bits, md = predict_bits(v, q, loc, U[:, col:col + len(loc)])
+                pred_[:, col:col + len(loc)] = bits
+                col += len(loc)
+                mind_ = min(mind_, md)
+            off += q
+        return pred_, mind_
+
+    pred, mind = predict(dense_blocks)
     assume(mind > 1e-9)
     calls = []
     orig = np.random.rand
@@ -174,6 +178,36 @@ def body(c):
         require(ok, 'inverse_cdf', 'returned %d outcomes %s with frequencies %s; predicted from the dense state: %s with %s'
                 % (samples.shape[0], samples.astype(int).tolist()[:4], freqs[:4], want_s.tolist()[:4], (want_c / N)[:4]))
         lab.add('exact_prediction')
+        if c.get('gate_in_place') and N <= 200:
+            # circuit simulation: a single-qubit gate is applied to a core of the SAME state object (right-orthonormality and the
+            # norm are preserved) and the register is sampled again with the same measured sites
+            site = measure[c['seed'] % k]
+            g = dense.rand_unitary(np.random.default_rng(c['seed'] + 7), 2, True)
+            state.cores[site] = np.einsum('ij,ajbc->aibc', g, state.cores[site])
+            off = 0
+            new_blocks = []
+            for q, v in zip(blocks, dense_blocks):
+                if off <= site < off + q:
+                    t = np.moveaxis(np.tensordot(g, v.reshape([2] * q), axes=([1], [site - off])), 0, site - off)
+                    new_blocks.append(t.reshape(-1))
+                else:
+                    new_blocks.append(v)
+                off += q
+            pred2, mind2 = predict(new_blocks)
+            if mind2 > 1e-9:
+                calls.clear()
+                np.random.rand = fake_rand
+                try:
+                    samples2, freqs2 = qc.sampling(state, list(measure), N)
+                finally:
+                    np.random.rand = orig
+                if calls == [(N, k)]:
+                    w_s, w_c = np.unique(pred2, return_counts=True, axis=0)
+                    samples2 = np.asarray(samples2)
+                    ok2 = samples2.shape == w_s.shape and np.array_equal(samples2.astype(int), w_s) and np.allclose(np.asarray(freqs2, dtype=float), w_c / N, rtol=0, atol=1e-12)
+                    require(ok2, 'inverse_cdf', 'after a gate was applied to core %d of the same state object: returned %s with %s; predicted %s with %s'
+                            % (site, samples2.astype(int).tolist()[:4], np.asarray(freqs2)[:4], w_s.tolist()[:4], (w_c / N)[:4]))
+                    lab.add('state_updated_in_place')
     else:
         # the sampler no longer draws one (N, k) matrix: statistical fallback for small systems
         lab.add('chi_square_fallback')
@@ -202,5 +236,5 @@ def nt(labels):
 
 SUBCHECKS = [
     Sub('sampling', state_case(), body, nt, quick=250, thorough=2500, shards_quick=8, budget_quick=150,
-        classes=['entangled', 'blocks', 'complex', 'entangled_rank>=2', 'unmeasured_sites', 'qubits>20', 'measured>64', 'exact_prediction', 'samples>4096']),
+        classes=['entangled', 'blocks', 'complex', 'entangled_rank>=2', 'unmeasured_sites', 'qubits>20', 'measured>64', 'exact_prediction', 'samples>4096', 'state_updated_in_place']),
 ]
